@@ -21,7 +21,8 @@ func init() {
 			"D5 the driver merges adjacent runs buffer[left:middle], buffer[middle:right] into values[left:right] with 0<=left<=middle<=right<=length on all integers; " +
 			"D6 ReverseValues swaps positions i and length-1-i for i in [0, length/2); ShuffleValues only swaps." +
 			" Also: no sorter method keeps the caller's array (or the array it exchanged roles with) after the call; a loop steered by the ranker's or a collator's answer - in the sorter and in the ordering methods of Array and List - is conjoined with a bound on a stepped counter; every block of a pass is merged (no iteration skips the merge, the block loop is not left early); reversal is stated as an invariant (mirror positions, lower index from 0, exactly while lower < upper)." +
-			" Round 7: no unsigned size-minus-constant where the size may be zero; index guards exclude the length.",
+			" Round 7: no unsigned size-minus-constant where the size may be zero; index guards exclude the length." +
+			" Rounds 8-9: consecutive copies into one slice tile it, and two sibling places do not put different leading blocks in front of the same offset.",
 		NotDecided: "the global induction that after the pass of width w every run of length w is sorted and a permutation (it follows from D4+D5 but is not mechanised), uniformity of the shuffle.",
 		Run:        runC09,
 	})
